@@ -2,7 +2,7 @@ import WcModel.Proofs.WcWalk
 /-
   C14 — WcMatch returns exactly the files a filtered directory walk selects.
 
-  The walk model is `Model/WcWalk.lean` (`run`: `on_reset`, `os.walk` with in-place pruning, the three
+  The walk model is `Model/WcWalk.lean` (`run`: `on_reset`, `os.walk` with in-place pruning, the four
   poll sites, `_valid_folder` / `_valid_file`, hidden rule, RECURSIVE / HIDDEN / SYMLINKS).  The pattern
   decisions are parameters of the model: `cfg.fileDec`, `cfg.dirExcl` (the check feeds them from an
   independent formulation through `fnmatch.fnmatch` / `glob.globmatch`).  The specification is
@@ -111,7 +111,7 @@ theorem C14_pathname_flags :
 theorem C14_field_flags :
     Gen.wcmFieldFlags = [("follow_links", "SYMLINKS"), ("show_hidden", "HIDDEN"), ("recursive", "RECURSIVE"),
       ("dir_pathname", "DIRPATHNAME"), ("file_pathname", "FILEPATHNAME"), ("matchbase", "MATCHBASE")] ∧
-    Gen.wcmWalkFollowlinks = true ∧ Gen.wcmPollSites = 3 := by decide
+    Gen.wcmWalkFollowlinks = true ∧ Gen.wcmPollSites = 4 := by decide
 
 /-- the five walk flags are distinct bits inside the public mask, and `Cfg.ofFlags` reads them -/
 theorem C14_flag_bits :
